@@ -52,6 +52,7 @@ def cases(tier, seed):
             out.append(dict(mode="dfs", alphabet=name, prefix=list(pre), depth=b[f"pruned_{name}_depth"]))
     for pre in itertools.product(WRITE, repeat=2):
         out.append(dict(mode="wdfs", prefix=list(pre), depth=b["write_depth"]))
+    out.append(dict(mode="narrowpid"))
     return out
 
 
@@ -506,7 +507,28 @@ def wdfs(case):
     )
 
 
+def run_narrowpid(case):
+    """pid declared with a narrow integer type and more releases than it holds: identifiers must keep counting, never wrap."""
+    from ladim.state import State
+
+    viols = []
+    for dt_, n in (("i2", 40000), ("i1", 300)):
+        st = State(instance_variables=dict(pid=dt_))
+        try:
+            st.append(X=np.zeros(n), Y=1.0, Z=2.0)
+            st.append(X=np.zeros(5), Y=1.0, Z=2.0)
+            ok = np.array_equal(np.asarray(st.pid, dtype=np.int64), np.arange(n + 5)) and st.npid == n + 5
+            msg = f"pids after releasing {n}+5 particles: min {int(np.min(st.pid))} max {int(np.max(st.pid))} npid {st.npid}"
+        except Exception as e:  # refusing the overflow loudly is fine, wrapping silently is not
+            ok, msg = True, repr(e)
+        if not ok:
+            viols.append(util.viol("pid:wrapped", f"pid declared as {dt_}: {msg}", case))
+    return util.result(evals=2, nontrivial=2, viol=viols, outcomes=["narrowpid"], states=2, transitions=4, sample=case)
+
+
 def run_case(case):
+    if case["mode"] == "narrowpid":
+        return run_narrowpid(case)
     if case["mode"] == "dfs":
         return dfs(case)
     if case["mode"] == "rdfs":
